@@ -510,6 +510,8 @@ static int http_request_parse_single_header(request_st * const restrict r, const
              * which are not currently supported by lighttpd */
             return http_request_header_line_invalid(r, 501, NULL); /* Not Implemented */
         }
+        if (-1 == r->reqbody_length) /* "chunked, chunked" is not chunked */
+            return http_request_header_line_invalid(r, 400, "duplicate Transfer-Encoding header -> 400");
         r->reqbody_length = -1;
 
         /* Transfer-Encoding is a hop-by-hop header,
